@@ -385,7 +385,7 @@ var probeAttrs = map[string]authorizer.Attributes{
 }
 
 // effective configuration of one cluster, through public accessors only
-func project(ci *clusters.ClusterInfo) map[string]interface{} {
+func project(ci *clusters.ClusterInfo, probe bool) map[string]interface{} {
 	eps := [][]string{}
 	for _, n := range ci.AllEndpoints() {
 		if e, ok := ci.Endpoints.Load(n); ok {
@@ -416,7 +416,20 @@ func project(ci *clusters.ClusterInfo) map[string]interface{} {
 	t := tlsIdentity(tcfg)
 	vo, hasVO := ci.LoadVerifyOptions()
 	t["verify"] = hasVO && vo.Roots != nil
-	return map[string]interface{}{"endpoints": eps, "routing": routing, "flow": ci.GetFlowSchema("s").String(), "gates": gates, "names": names, "tls": t}
+	out := map[string]interface{}{"endpoints": eps, "routing": routing, "flow": ci.GetFlowSchema("s").String(), "gates": gates, "names": names, "tls": t}
+	if probe {
+		// what schema "s" DOES, not what it reports: requests admitted at once (nothing else draws on it in this harness, and a limiter is
+		// created full, so every bucket is full at its first probe: probe only once per gateway), every slot given back afterwards
+		fc, n := ci.GetFlowSchema("s"), 0
+		for n < 64 && fc.TryAcquire() {
+			n++
+		}
+		for i := 0; i < n; i++ {
+			fc.Release()
+		}
+		out["admit"] = n
+	}
+	return out
 }
 
 // keepInfo wraps the real ExtraRequestInfo factory and keeps the info it created, so that the cluster the real
@@ -447,7 +460,7 @@ func (g *gateway) resolve(host string) string {
 	return ""
 }
 
-func (g *gateway) observe(hosts []string, clusterNames []string) (map[string]string, map[string]interface{}, map[string]interface{}) {
+func (g *gateway) observe(hosts []string, clusterNames []string, probe bool) (map[string]string, map[string]interface{}, map[string]interface{}) {
 	res := map[string]string{}
 	tl := map[string]interface{}{}
 	base := func(*tls.ClientHelloInfo) (*tls.Config, error) { return &tls.Config{}, nil }
@@ -478,7 +491,7 @@ func (g *gateway) observe(hosts []string, clusterNames []string) (map[string]str
 	eff := map[string]interface{}{}
 	for _, c := range clusterNames {
 		if ci, ok := g.ctrl.Get(c); ok && ci.Cluster == strings.ToLower(c) {
-			eff[c] = project(ci)
+			eff[c] = project(ci, probe)
 		} else {
 			eff[c] = nil
 		}
@@ -559,7 +572,7 @@ func runScenario(t *testing.T, sc scenario) (events []ev) {
 				obsIdx++
 				synctest.Wait()
 				events = append(events, gw.drainMid()...)
-				res, tl, eff := gw.observe(sc.Hosts, names)
+				res, tl, eff := gw.observe(sc.Hosts, names, obsIdx == nObs)
 				// a fresh gateway that is given only the latest objects
 				objs := []runtime.Object{}
 				lat := map[string]interface{}{}
@@ -574,7 +587,7 @@ func runScenario(t *testing.T, sc scenario) (events []ev) {
 				fg := newGateway(objs...)
 				time.Sleep(2 * time.Second)
 				synctest.Wait()
-				fres, ftl, feff := fg.observe(sc.Hosts, names)
+				fres, ftl, feff := fg.observe(sc.Hosts, names, obsIdx == nObs)
 				fg.close()
 				e := ev{"k": "obs", "resolve": res, "tls": tl, "eff": eff, "fresh_resolve": fres, "fresh_tls": ftl, "fresh": feff, "latest": lat}
 				if sc.Versions && obsIdx == nObs {
@@ -586,7 +599,7 @@ func runScenario(t *testing.T, sc scenario) (events []ev) {
 							g2 := newGateway(concretise(v))
 							time.Sleep(2 * time.Second)
 							synctest.Wait()
-							_, _, e2 := g2.observe(nil, []string{n})
+							_, _, e2 := g2.observe(nil, []string{n}, true)
 							g2.close()
 							projs = append(projs, e2[n])
 						}
